@@ -13,11 +13,12 @@ E == Tr[l]
 Ids == 1..T.nids
 Tids == 1..T.nthreads
 Flag(c, ok) == IF ok THEN {} ELSE {c}
-NoOp == [op |-> "", a |-> [id |-> 0], done |-> FALSE, res |-> [ok |-> TRUE]]
+NoOp == [op |-> "", a |-> [id |-> 0], done |-> FALSE, res |-> [ok |-> TRUE], snap |-> <<>>]
 Init == /\ tid \in 1..Len(Traces) /\ l = 1 /\ store = [i \in Ids |-> Absent] /\ pend = [g \in Tids |-> NoOp]
         /\ used = {} /\ bad = {}
 EvCall == /\ l <= Len(Tr) /\ E.t = "call"
-          /\ pend' = [pend EXCEPT ![E.tid] = [op |-> E.op, a |-> E.a, done |-> FALSE, res |-> [ok |-> TRUE]]]
+          /\ pend' = [pend EXCEPT ![E.tid] = [op |-> E.op, a |-> E.a, done |-> FALSE, res |-> [ok |-> TRUE],
+                                              snap |-> IF E.op = "load" THEN store ELSE <<>>]]
           /\ l' = l + 1 /\ UNCHANGED <<store, used, bad, tid>>
 (* the silent linearisation step of a pending operation (not for write/load: those are exclusive) *)
 Lin(g) == /\ pend[g].op \notin {"", "write", "load"} /\ ~pend[g].done
@@ -41,10 +42,22 @@ EvRet ==
           /\ store' = IF E.ok /\ E.v \in Ids THEN [store EXCEPT ![E.v] = New(p.a)] ELSE store
           /\ used' = IF E.ok THEN used \cup {E.v} ELSE used
      ELSE IF p.op = "load"
-     THEN /\ bad' = bad \cup Flag("C15_Load", /\ E.ok
-                                              /\ {E.v[k][2] : k \in 1..Len(E.v)} = {i \in Ids : store[i].live}
-                                              /\ \A k \in 1..Len(E.v) : E.v[k][2] \in Ids => E.v[k][1] = store[E.v[k][2]].ts
-                                              /\ \A j, k \in 1..Len(E.v) : j # k => E.v[j][2] # E.v[k][2])
+     THEN \* a listing that overlaps removals of other messages may or may not contain them; everything that was
+          \* live throughout must be listed once, with its own timestamp
+          /\ LET live0 == {i \in Ids : p.snap[i].live}
+                 live1 == {i \in Ids : store[i].live}
+                 listed == {E.v[n][2] : n \in 1..Len(E.v)}
+             IN bad' = bad \cup Flag("C15_Load", /\ E.ok
+                                              /\ (live0 \cap live1) \subseteq listed /\ listed \subseteq (live0 \cup live1)
+                                              /\ (\A k \in 1..Len(E.v) : E.v[k][2] \in Ids =>
+                                                    \/ E.v[k][1] \in {p.snap[E.v[k][2]].ts, store[E.v[k][2]].ts}
+                                                    \* a message removed while the listing ran may carry a made-up time
+                                                    \* (redis: wall clock), but never the timestamp of another message
+                                                    \/ /\ ~store[E.v[k][2]].live
+                                                       /\ \A o \in Ids \ {E.v[k][2]} :
+                                                             (p.snap[o].live => E.v[k][1] # p.snap[o].ts)
+                                                             /\ (store[o].live => E.v[k][1] # store[o].ts))
+                                              /\ \A x, y \in 1..Len(E.v) : x # y => E.v[x][2] # E.v[y][2])
           /\ UNCHANGED <<store, used>>
      ELSE LET r == IF p.done THEN [st |-> store, res |-> p.res] ELSE Apply(store, p.op, p.a) IN
           /\ store' = r.st
